@@ -227,7 +227,8 @@ func (m *Encoder) encodeValue(v reflect.Value, hint Type) error {
 
 	case reflect.String:
 		if hint == SymbolType {
-			return m.w.WriteSymbolFromString(v.String())
+			// The Go string is the symbol's text, never a symbol identifier such as $10.
+			return m.w.WriteSymbol(NewSymbolTokenFromString(v.String()))
 		}
 		return m.w.WriteString(v.String())
 
